@@ -181,11 +181,18 @@ def run_rules(prop: str, repo: Repo, tier: str, with_deps: bool = True) -> Ctx:
                     fns = None
                     break
                 fns.append(f)
-            if fns:
-                for f in fns:
-                    f(dctx)
-            else:
-                dmod.run(dctx)
+            try:
+                if fns:
+                    for f in fns:
+                        f(dctx)
+                else:
+                    dmod.run(dctx)
+            except AnalysisError as e:
+                # a violation already established by the property's own rules stands; otherwise fail closed
+                if any(not o.ok for o in ctx.obligations):
+                    ctx.note(f"dependency clause {dep} {'/'.join(rules)} could not be analysed on this tree: {e}")
+                else:
+                    raise
             ctx.assume(f"depends on {dep} {'/'.join(rules)}: {why}")
     if not ctx.obligations:
         raise AnalysisError(f"{prop}: no obligations generated (vacuous)")
